@@ -217,3 +217,123 @@ Example C09_file_example :
     length k = 5%nat.
 Proof. exact file_example. Qed.
 Print Assumptions C09_file_example.
+
+(* ================================================================================================
+   C09 CLOSED with the concrete rearranger of C03 (Model/Rearranger.v), and combined with C07.
+   Proofs: Proofs/LinkPreprocRearranger.v, Proofs/LinkPreprocDiff.v.  The accumulator of the text codec is
+   defined there from Model/Text.v + Model/Rearranger.v + Model/Location.v:
+     file_nets o serial f       the subnet records of the '%' lines of f, in file order
+     rearrange_text sort ns     SubnetRanger: one Rearranger per map (maps in first-appearance order),
+                                AddLocation in file order, Rearrange with sort.Slice = sort, one Rrangepoint
+                                record per point; Err = Rearrange panicked
+     rearrange_total sort       the same as a total function (the shape [rearrange] has in Model/Preproc.v)
+     file_subnets_wfb o serial f  C03's guard wf_subnets on the subnets of every map of the file (decidable):
+                                under it Rearrange does not panic
+     scan f                     the lines parse() hands to the workers (TrimLeft, short lines and comments dropped)
+     convert_ln / text_accum / features   the codec of C07 for text: ConvertLn, the accumulator's records
+                                (points of rearrange_total sort of the subnets of the lines), feature record
+   ================================================================================================ *)
+From DnsV Require Import Model.Rearranger Proofs.Rearranger Model.Compile Proofs.Batch Proofs.CompilePipe.
+From DnsV Require Import Proofs.LinkDiffText Proofs.LinkPreprocRearranger Proofs.LinkPreprocDiff Proofs.LinkPreprocDiffExample.
+
+(* the two rearranger hypotheses of C09_preproc_same_db_outside_finding hold for the concrete rearranger of
+   every sort.Slice, restricted to well-formed subnet records with a two-byte location (rearrange_guarded;
+   nothing else reaches the rearranger from a well-formed file): nothing from nothing, and every point
+   Rearrange returns is a well-formed Rrangepoint record - map id, 16-byte address, mask byte and location
+   bytes are bytes.  No geometric guard is needed for this. *)
+Theorem C09_rearranger_hypotheses : forall o sort, sort_spec sort ->
+  rearrange_guarded o sort [] = [] /\
+  forall ns r, In r (rearrange_guarded o sort ns) ->
+    (exists lmap ip ml null locid, r = RRangePoint lmap ip ml null locid) /\ wf_recordb o r = true.
+Proof. exact rearrange_guarded_hyps. Qed.
+Print Assumptions C09_rearranger_hypotheses.
+
+(* ... hence the literal instance of C09_preproc_same_db_outside_finding, no rearranger hypothesis left *)
+Theorem C09_preproc_same_db_instance : forall o,
+  (forall a, wf_bytes a -> length a = 16%nat -> o_parse_ip o (o_print_ip o a) = Some a) ->
+  o_parse_ip o [] = None ->
+  (forall a, contains 44 (o_print_ip o a) = false) ->
+  forall sort, sort_spec sort ->
+  forall v2 serial pserial, serial <= max32 -> pserial = serial \/ pserial = 0 ->
+  forall f, Proofs.Preproc.wf_file o serial f ->
+  exists body nets kvs,
+    pre_go o pserial f = Ok (body, nets) /\
+    preprocess o (rearrange_guarded o sort) pserial f = Ok (body ++ map (marshal o) (rearrange_guarded o sort nets)) /\
+    Model.Preproc.compile o (rearrange_guarded o sort) v2 serial f = Ok kvs /\
+    forall pts, Permutation pts (rearrange_guarded o sort nets) ->
+      exists kvs', Model.Preproc.compile o (rearrange_guarded o sort) v2 serial (body ++ map (marshal o) pts) = Ok kvs' /\
+                   Permutation kvs' kvs.
+Proof. exact preproc_stmt_instance. Qed.
+Print Assumptions C09_preproc_same_db_instance.
+
+(* the closed statement, with the unguarded concrete rearranger: for every sort.Slice, a well-formed file
+   (outside F12 as wf_file states it) whose subnets pass C03's guard is preprocessed without a panic of
+   Rearrange to its body followed by the text of the points (subnets = file_nets f), and that text - the
+   point lines in any order - compiles to the same records as the original, up to order, leaving no subnet
+   for the accumulator *)
+Theorem C09_preproc_same_db_closed : forall o,
+  (forall a, wf_bytes a -> length a = 16%nat -> o_parse_ip o (o_print_ip o a) = Some a) ->
+  o_parse_ip o [] = None ->
+  (forall a, contains 44 (o_print_ip o a) = false) ->
+  forall sort, sort_spec sort ->
+  forall v2 serial pserial, serial <= max32 -> pserial = serial \/ pserial = 0 ->
+  forall f, Proofs.Preproc.wf_file o serial f -> file_subnets_wfb o serial f = true ->
+  exists body points kvs,
+    pre_go o pserial f = Ok (body, file_nets o serial f) /\
+    rearrange_text sort (file_nets o serial f) = Ok points /\
+    preprocess o (rearrange_total sort) pserial f = Ok (body ++ map (marshal o) points) /\
+    Model.Preproc.compile o (rearrange_total sort) v2 serial f = Ok kvs /\
+    forall pts, Permutation pts points ->
+      exists kvs', Model.Preproc.compile o (rearrange_total sort) v2 serial (body ++ map (marshal o) pts) = Ok kvs' /\
+                   Permutation kvs' kvs /\
+                   exists K', compile_go o v2 serial (body ++ map (marshal o) pts) = Ok (K', []).
+Proof. exact preproc_same_db_closed. Qed.
+Print Assumptions C09_preproc_same_db_closed.
+
+(* Model/Preproc.compile is the record list of C07 over the scanned lines, for the text codec *)
+Theorem C09_compile_is_c07_records : forall o v2 serial R f kvs,
+  Model.Preproc.compile o R v2 serial f = Ok kvs ->
+  accepted bytes (convert_ln o v2 serial) (scan f) = true /\
+  kvs = records bytes (convert_ln o v2 serial) (text_accum o v2 serial R) (features v2) (scan f).
+Proof. exact compile_is_records. Qed.
+Print Assumptions C09_compile_is_c07_records.
+
+(* C09 + C07, both key layouts (v2 arbitrary): for a well-formed file (guards as above; values shorter than
+   2^32 bytes: kvs_ok of the file's records), ANY C07 RocksDB compilation of the preprocessed text (builder
+   or batches, any setting, any schedule, the point lines in any order) and ANY C07 RocksDB compilation of
+   the original text are well-formed stores holding equal multisets of values under every key *)
+Theorem C09_preproc_same_compiled_db : forall o,
+  (forall a, wf_bytes a -> length a = 16%nat -> o_parse_ip o (o_print_ip o a) = Some a) ->
+  o_parse_ip o [] = None ->
+  (forall a, contains 44 (o_print_ip o a) = false) ->
+  forall sort, sort_spec sort ->
+  forall v2 serial pserial, serial <= max32 -> pserial = serial \/ pserial = 0 ->
+  forall f, Proofs.Preproc.wf_file o serial f -> file_subnets_wfb o serial f = true ->
+  kvs_ok (records bytes (convert_ln o v2 serial) (text_accum o v2 serial (rearrange_total sort)) (features v2) (scan f)) ->
+  exists body points,
+    rearrange_text sort (file_nets o serial f) = Ok points /\
+    preprocess o (rearrange_total sort) pserial f = Ok (body ++ map (marshal o) points) /\
+    forall pts, Permutation pts points ->
+      let out := body ++ map (marshal o) pts in
+      scan out = out /\
+      forall db1 db2,
+        rdb_compilation bytes (convert_ln o v2 serial) (text_accum o v2 serial (rearrange_total sort)) (features v2) (scan out) db1 ->
+        rdb_compilation bytes (convert_ln o v2 serial) (text_accum o v2 serial (rearrange_total sort)) (features v2) (scan f) db2 ->
+        store_ok db1 /\ store_ok db2 /\ forall k, Permutation (vals db1 k) (vals db2 k).
+Proof. exact preproc_same_compiled_db. Qed.
+Print Assumptions C09_preproc_same_compiled_db.
+
+(* non-vacuity: the guards hold for two files with subnet lines for two maps over o_toy (the oracle of
+   C09_library_premises_satisfiable), and the chained theorem applies to them
+   (the computed databases are in C08_text_example) *)
+Example C09_link_example :
+  Proofs.Preproc.wf_file x_o 7 x_A /\ Proofs.Preproc.wf_file x_o 7 x_B /\
+  file_subnets_wfb x_o 7 x_A = true /\ file_subnets_wfb x_o 7 x_B = true /\
+  kvs_ok (records bytes x_conv x_acc x_feat (scan x_A)) /\ kvs_ok (records bytes x_conv x_acc x_feat (scan x_B)) /\
+  preprocess x_o x_R 0 x_A = Ok x_PA /\ preprocess x_o x_R 0 x_B = Ok x_PB /\
+  length x_PA = 5%nat /\ length x_PB = 8%nat /\ length (file_nets x_o 7 x_B) = 2%nat.
+Proof.
+  destruct link_example as (_ & _ & H1 & H2 & H3 & H4 & H5 & H6 & H7 & H8 & H9 & H10 & H11 & _).
+  exact (conj H1 (conj H2 (conj H3 (conj H4 (conj H5 (conj H6 (conj H7 (conj H8 (conj H9 (conj H10 H11)))))))))).
+Qed.
+Print Assumptions C09_link_example.
